@@ -12,4 +12,54 @@ CONFIG = {
         "mandatory_labels": ["C01:nontrivial:majorityHeuristic", "C01:nontrivial:electreIII", "C01:nontrivial:weightedSum",
                              "C01:nontrivial:aspectEliminationHeuristic", "C01:nontrivial:satisfactionHeuristic"],
     },
+    "C02": {
+        "rule": "cases = generated requests (all methods, bias sequences 0..4 with probabilities/disabled entries, 25% "
+                "constraint-level mutants that must be rejected) each decided 6 times in-process interleaved with 0..3 "
+                "other requests, then the recorded corpus re-decided in K fresh processes in different orders; "
+                "non-trivial = accepted request that draws a random number (any enabled bias, random ordering/draw) or "
+                "iterates a map of >= 3 criteria; distinct by request text",
+        "assumptions": ["'every process start' is sampled by K fresh processes (3 quick / 8 thorough)",
+                        "'every repetition count' is 6 in-process repetitions (20 on replay)"],
+        "quick": {"checks": 5000, "shards": 8, "min_nontrivial": 5000, "post": {"run": "^TestC02Corpus$", "procs": 3}},
+        "thorough": {"checks": 60000, "shards": 14, "min_nontrivial": 50000, "timeout": 3000,
+                     "post": {"run": "^TestC02Corpus$", "procs": 8}},
+        "mandatory_labels": ["C02:rejected", "C02:accepted", "C02:fresh-process-cases"],
+    },
+    "C03": {
+        "rule": "cases = generated requests for weightedSum / owa / choquetIntegral (1..5 criteria, any-sign values and weights, "
+                "Choquet near-ties at +-5e-6/+-2e-5, bias prefixes 0..2); oracle = closed formula recomputed from the final "
+                "criteria values in the response and the parameters reconstructed from request + bias reports; non-trivial "
+                "= >= 2 final criteria, values not all equal, weights not all 1 / not all equal, Choquet capacity "
+                "non-additive; distinct by request text",
+        "assumptions": ["Choquet after criterion-adding biases is not judged (added capacities are unobservable)",
+                        "tolerance 1e-8 + 1e-12*scale; Choquet cases with a value gap within 1e-9 of the 1e-5 tie boundary are skipped as ambiguous"],
+        "quick": {"checks": 25000, "shards": 8, "min_nontrivial": 20000},
+        "thorough": {"checks": 300000, "shards": 14, "min_nontrivial": 200000, "timeout": 3000},
+        "mandatory_labels": ["C03:nontrivial:weightedSum", "C03:nontrivial:owa", "C03:nontrivial:choquetIntegral",
+                             "C03:nontrivial-with-bias:weightedSum", "C03:nontrivial-with-bias:choquetIntegral", "C03:choquet-textbook-checked"],
+    },
+    "C04": {
+        "rule": "(a) component: AlternativeResults.Ranking() on 1..10 entries drawn from a multiset generator (all equal, "
+                "distinct, plateaus, values coinciding/separating only after the 1e-8 rounding); (b) API: the three utility "
+                "methods on tie-heavy and near-tie requests; (c) the same request with knownAlternatives and choseToMake "
+                "independently permuted. Oracle from the reported values: order (value desc, id asc), exact link sets, "
+                "reachability closure, per-id equality under permutation. Non-trivial = >= 3 entries, >= 2 plateaus, one of "
+                "size >= 2; distinct by case text",
+        "assumptions": ["permutation invariance is judged on requests without biases"],
+        "quick": {"checks": 20000, "shards": 8, "min_nontrivial": 20000},
+        "thorough": {"checks": 250000, "shards": 14, "min_nontrivial": 200000, "timeout": 3000},
+        "mandatory_labels": ["C04:nontrivial:weightedSum", "C04:nontrivial:owa", "C04:nontrivial:choquetIntegral", "C04:permutation-checked"],
+    },
+    "C07": {
+        "rule": "cases = 7 methods x bias sequences of length 0..4 (with repetition) of the 6 biases x their options, all firing, "
+                "considered = known or a proper subset, a probe bias before/after every bias; invariants over the recorded "
+                "pipeline history: answered with a ranking; every alternative has a value for every current criterion; the "
+                "method evaluates and ranks the criteria of every intermediate state; split unchanged; criteria appear/"
+                "disappear exactly as reported; untouched values bit-identical across each step; probed == un-probed "
+                "response. Non-trivial = >= 2 applied biases of which one adds or removes a criterion; distinct by request text",
+        "assumptions": ["the probe returns `current` unchanged (same pointer); the un-probed sibling run must agree"],
+        "quick": {"checks": 12000, "shards": 8, "min_nontrivial": 20000},
+        "thorough": {"checks": 150000, "shards": 14, "min_nontrivial": 250000, "timeout": 3000},
+        "mandatory_labels": ['C07:pair:criteriaOmission>criteriaOmission', 'C07:pair:criteriaOmission>preferenceReversal', 'C07:pair:criteriaOmission>fatigue', 'C07:pair:criteriaOmission>criteriaConcealment', 'C07:pair:criteriaOmission>criteriaMixing', 'C07:pair:criteriaOmission>anchoring', 'C07:pair:preferenceReversal>criteriaOmission', 'C07:pair:preferenceReversal>preferenceReversal', 'C07:pair:preferenceReversal>fatigue', 'C07:pair:preferenceReversal>criteriaConcealment', 'C07:pair:preferenceReversal>criteriaMixing', 'C07:pair:preferenceReversal>anchoring', 'C07:pair:fatigue>criteriaOmission', 'C07:pair:fatigue>preferenceReversal', 'C07:pair:fatigue>fatigue', 'C07:pair:fatigue>criteriaConcealment', 'C07:pair:fatigue>criteriaMixing', 'C07:pair:fatigue>anchoring', 'C07:pair:criteriaConcealment>criteriaOmission', 'C07:pair:criteriaConcealment>preferenceReversal', 'C07:pair:criteriaConcealment>fatigue', 'C07:pair:criteriaConcealment>criteriaConcealment', 'C07:pair:criteriaConcealment>criteriaMixing', 'C07:pair:criteriaConcealment>anchoring', 'C07:pair:criteriaMixing>criteriaOmission', 'C07:pair:criteriaMixing>preferenceReversal', 'C07:pair:criteriaMixing>fatigue', 'C07:pair:criteriaMixing>criteriaConcealment', 'C07:pair:criteriaMixing>criteriaMixing', 'C07:pair:criteriaMixing>anchoring', 'C07:pair:anchoring>criteriaOmission', 'C07:pair:anchoring>preferenceReversal', 'C07:pair:anchoring>fatigue', 'C07:pair:anchoring>criteriaConcealment', 'C07:pair:anchoring>criteriaMixing', 'C07:pair:anchoring>anchoring', 'C07:nontrivial:weightedSum', 'C07:nontrivial:owa', 'C07:nontrivial:choquetIntegral', 'C07:nontrivial:electreIII', 'C07:nontrivial:majorityHeuristic', 'C07:nontrivial:aspectEliminationHeuristic', 'C07:nontrivial:satisfactionHeuristic'],
+    },
 }
